@@ -7,6 +7,7 @@ implementation line compared with the model is first compared with the reference
 
 `cryptography` is absent: `sign_zone` is driven with a recording `rrset_signer`; hashes come from hashlib.
 """
+from harness.core import Stalled as _Stalled
 import glob
 import hashlib
 import io
@@ -395,6 +396,8 @@ def _outcome(fn, fmt):
     except Hang:
         raise
     except BaseException as e:  # foreign
+        if isinstance(e, _Stalled):
+            raise
         return "FOREIGN " + type(e).__name__, None
     return "ok " + fmt(v), v
 
@@ -1018,6 +1021,8 @@ def eval_signzone(ctx, c, rep):
             except exc:
                 escaped = True
             except BaseException as e:  # noqa
+                if isinstance(e, _Stalled):
+                    raise
                 ctx.fail("C15/sign_zone/signer-exception-replaced", f"signer raised {exc.__name__}, caller saw {type(e).__name__}", rep)
                 return
             ctx.count("signzone.signer-raises." + (c.get("raise_kind", "value") if reached else "not-reached"))
@@ -1154,6 +1159,8 @@ def eval_zonemd(ctx, c, rep):
     except dns.zone.NoDigest:
         got = "NoDigest"
     except BaseException as e:
+        if isinstance(e, _Stalled):
+            raise
         got = "FOREIGN " + type(e).__name__
     ctx.count("zonemd.verify." + vr)
     if got != expect:
